@@ -186,8 +186,9 @@ package harfbuzz
 //@   requires [range] 0 <= b.idx && b.idx <= start && start <= end && end <= len(b.Info)
 //@   requires [distinct-buffers] rid(b.Info) != rid(b.outInfo) || len(b.outInfo) == 0
 //@   ensures [range-gets-its-minimum] implies(old(b.ClusterLevel) != Characters && end0-start0 >= 2, forall(i, start0, end0, forall(k, start0, end0, b.Info[i].Cluster <= old(b.Info[k].Cluster))))
+//@   ensures [range-uniform] implies(old(b.ClusterLevel) != Characters && end0-start0 >= 2, forall(i, start0, end0, b.Info[i].Cluster == b.Info[start0].Cluster))
 //@   ensures [clusters-only-decrease] implies(old(b.ClusterLevel) != Characters, forall(i, 0, len(b.Info), b.Info[i].Cluster <= old(b.Info[i].Cluster)) && forall(i, 0, len(b.outInfo), b.outInfo[i].Cluster <= old(b.outInfo[i].Cluster)))
-//@   ensures [shape-kept] implies(old(b.ClusterLevel) != Characters, sameslice(b.Info, old(b.Info)) && sameslice(b.outInfo, old(b.outInfo)) && b.idx == old(b.idx))
+//@   ensures [shape-kept] sameslice(b.Info, old(b.Info)) && sameslice(b.outInfo, old(b.outInfo)) && b.idx == old(b.idx) && b.ClusterLevel == old(b.ClusterLevel)
 //@   modifies unspecified
 //@   loop 1 invariant [i-range] start+1 <= i && i <= end && start == start0 && end == end0
 //@   loop 1 invariant [min-so-far] forall(k, start, i, cluster <= b.Info[k].Cluster)
@@ -301,4 +302,31 @@ package harfbuzz
 //@ func reverseGraphemes C01
 //@   mode int
 //@   assert_at call reverseGroups#1 : [merges-exactly-at-monotone-characters] arg2 == (b.ClusterLevel == MonotoneCharacters)
+//@   modifies unspecified
+//
+// Arabic reorderMarks rotates the modifier combining marks info[i:j) in front of info[start:i): every glyph of
+// [start, j) may change place, so below the Characters level they must all share one cluster BEFORE the rotation
+// (that is what the preceding mergeClusters(start, j) establishes), or the clusters of the output are out of order.
+//@ func infoIsMcm C01
+//@   mode int
+//@   modifies nothing
+//@ func complexShaperArabic.reorderMarks C01
+//@   mode int
+//@   loop 1 invariant [info-is-the-buffer] sameslice(info, buffer.Info)
+//@   assert_at call copy#1 : [rotated-range-shares-a-cluster] implies(buffer.ClusterLevel != Characters && j-start >= 2, forall(k, start, j, info[k].Cluster == info[start].Cluster))
+//@   modifies unspecified
+//
+// Cursive attachment (GPOS type 3) couples the current glyph with the glyph the skipping iterator found BEFORE it,
+// possibly several glyphs back: the whole span from that glyph to the current one is unsafe to break.
+//@ func otApplyContext.applyGPOSCursive C18
+//@   mode int
+//@   assert_at call unsafeToBreak#1 : [attached-span-flagged] arg1 == skippyIter.idx && arg2 == buffer.idx+1
+//@   modifies unspecified
+//
+// shapePlan.init: a plan that is going to be cached (copy == true) owns its feature list - it never aliases the
+// caller's slice, which callers such as shaping.HarfbuzzShaper overwrite in place on their next call; the cached
+// plan's key would silently change with it.
+//@ func shapePlan.init C13
+//@   mode int
+//@   assert_at call init#1 : [cached-plan-owns-its-features] implies(copy && len(userFeatures) > 0, rid(plan.userFeatures) != rid(userFeatures) && len(plan.userFeatures) == len(userFeatures))
 //@   modifies unspecified
